@@ -2182,8 +2182,17 @@ class KeyBlock(Struct):
             self.key_compression_type = KeyBlock.KeyCompressionType()
             self.key_compression_type.read(tstream, kmip_version=kmip_version)
 
-        self.key_value = KeyValue()
-        self.key_value.read(tstream, kmip_version=kmip_version)
+        if self.is_type_next(enums.Types.BYTE_STRING, tstream):
+            # A wrapped key value is encoded as a byte string instead of a
+            # structure.
+            wrapped_key_value = ByteString(tag=Tags.KEY_VALUE)
+            wrapped_key_value.read(tstream, kmip_version=kmip_version)
+            self.key_value = KeyValue(
+                key_material=KeyMaterial(wrapped_key_value.value)
+            )
+        else:
+            self.key_value = KeyValue()
+            self.key_value.read(tstream, kmip_version=kmip_version)
 
         if self.is_tag_next(Tags.CRYPTOGRAPHIC_ALGORITHM, tstream):
             self.cryptographic_algorithm = attributes.CryptographicAlgorithm()
